@@ -21,6 +21,16 @@ def stepLine (s : S) (line : String) : S × String :=
       let (s', o) := step true s (.connect p)
       (s', s!"{o} c{c}")
     | none => (s, "bad-op")
+  | ["race", p, k, _mode] => match p.toNat?, k.toNat? with
+    | some p, some k =>
+      -- k `connect` steps in some order; the harness numbers the winner first
+      let base := s.next
+      let s' := (List.range k).foldl (fun st _ => (step true st (.connect p)).1) s
+      let news := (List.range k).map (fun i => s'.conn (base + i))
+      let reg := (news.filter (fun c => c.started)).length
+      let opn := (news.filter (fun c => c.started && !c.closed)).length
+      (s', s!"race registered={reg} open={opn} delivered={opn}")
+    | _, _ => (s, "bad-op")
   | ["frame", c] => match connTok c with
     | some c => lab (.frame c)
     | none => (s, "bad-op")
@@ -74,6 +84,9 @@ structure SpecSt where
   routes : List (Nat × Nat) := []          -- (peer, tag)
   relays : List (Nat × Nat × Nat × Nat) := []   -- (p, q, tagp, tagq)
 
+def kvNat (t key : String) : Option Nat :=
+  if t.startsWith (key ++ "=") then (t.drop (key.length + 1)).toNat? else none
+
 def lookup (l : List (Nat × Nat)) (k : Nat) : Option Nat := (l.find? (fun x => x.1 == k)).map (·.2)
 def erase (l : List (Nat × Nat)) (k : Nat) : List (Nat × Nat) := l.filter (fun x => x.1 != k)
 
@@ -101,6 +114,17 @@ def specLine (s : SpecSt) (line : String) : SpecSt × String :=
         else (s, "fail unparsable-answer")
       | none => (s, "ok")
     | ["connect", _, _], _ => ({ s with next := s.next + 1 }, "fail unparsable-answer")
+    | ["race", p, k, _], [_, r, o, d] =>
+      match p.toNat?, k.toNat?, kvNat r "registered", kvNat o "open", kvNat d "delivered" with
+      | some p, some k, some r, some o, some d =>
+        let base := s.next
+        let s := { s with next := base + k, peerOf := (List.range k).map (fun i => (base + i, p)) ++ s.peerOf }
+        let had := (lookup s.cur p).isSome
+        -- at most one of the simultaneous connections may be registered / stay open / deliver; none if one was live
+        if r + (if had then 1 else 0) > 1 || o > r || d > r then (s, "fail two-registered")
+        else if r = 1 then ({ s with cur := (p, base) :: s.cur, rejected := (List.range (k - 1)).map (fun i => base + 1 + i) ++ s.rejected }, "ok")
+        else ({ s with rejected := (List.range k).map (fun i => base + i) ++ s.rejected }, "ok")
+      | _, _, _, _, _ => (s, "fail unparsable-answer")
     | ["frame", c], [res] =>
       match c.toNat? with
       | some c => if res = "delivered" && s.rejected.contains c then (s, "fail rejected-delivered") else (s, "ok")
